@@ -147,6 +147,8 @@ def run(ctx):
     rule_no_dynamic_namespace_state(ctx)
     rule_errno_cleared(ctx)
     rule_special_members(ctx)
+    rule_probes(ctx)
+    rule_no_sign_extended_char(ctx)
 
 
 # ------------------------------------------------------------------------------------------------------------------------------
@@ -255,3 +257,109 @@ DEEP_COPY = {
     "nitro::lang::optional": "owns its value through a pointer: copies are made from the pointee, never member-wise (R18.4 / R18.5 decide them)",
     "nitro::lang::fixed_vector": "copies / assigns through a freshly built container and a swap of all three members (R07.1, R07.2, R06.7 decide them)",
 }
+
+
+# ------------------------------------------------------------------------------------------------------------------------------
+# S6: overload-resolution probes (witness/facts_probes.cpp)
+
+def _param_types(g):
+    return [(p.get("type") or "") for p in g.params]
+
+
+def _is_index_type(t):
+    return t.replace("const ", "").strip() in ("std::size_t", "size_t", "unsigned long", "std::vector::size_type", "size_type") or "size_type" in t
+
+
+PROBES = {
+    # property: [(probe function, which calls, expectation(g) -> (ok, text), what goes wrong otherwise)]
+    "C02": [("vprobe::as_with_index", "as",
+             lambda g: (len(g.params) == 2 and _is_index_type(_param_types(g)[1]), "the element accessor as<T>(name, std::size_t)"),
+             "the index is taken for something else (an overload whose second parameter matches the argument's type exactly wins over the conversion to std::size_t): "
+             "the element the command line gave is not what as<T>(name, i) returns")],
+    "C03": [("vprobe::default_from_convertible", "default_value",
+             lambda g: (len(g.params) == 1 and ("std::string" in _param_types(g)[0] or "basic_string" in _param_types(g)[0] or "vector<" in _param_types(g)[0]) and not g.flags.get("instantiation"),
+                        "default_value(const std::string&) / (const std::vector<std::string>&)"),
+             "a default handed over as an object that converts to std::string is rendered through another route (a template overload is an exact match and beats the conversion): "
+             "the third-rank source delivers another text than the one declared")],
+}
+PROBES["C12"] = []
+
+
+def rule_probes(ctx):
+    rule = rid(ctx, 6)
+    probes = PROBES.get(ctx.prop) or []
+    if not probes:
+        return
+    from .common import elem_calls
+    ctx.rule(rule, "overload-resolution probes (witness/facts_probes.cpp): calls a user may write select the documented function")
+    n = 0
+    for qual, callname, expect, what in probes:
+        wf = [f for f in ctx.prog.find(qual) if f.has_cfg]
+        if not ctx.anchor(rule, qual, bool(wf)):
+            continue
+        for bid, i, e in wf[0].all_elems():
+            for c in elem_calls(e):
+                if short(c.get("name") or "") != callname or not (c.get("name") or "").startswith("nitro::"):
+                    continue
+                n += 1
+                from sa.ir import fmt
+                g = ctx.prog.fn(c.get("callee")) if c.get("callee") else None
+                if g is None:
+                    ctx.broken(rule, wf[0], "probe:%s" % fmt(c)[:60], "the selected function is not in the facts", (wf[0], e.get("ln")))
+                    continue
+                ok, want = expect(g)
+                ctx.check(ok, rule, wf[0], "probe:%s" % fmt(c)[:60], "`%s` selects %s instead of %s: %s" % (fmt(c)[:80], g.id[:140], want, what), (wf[0], e.get("ln")), why_ok=g.id[:100])
+    ctx.need(rule, "probe calls", n, 3)
+
+
+def rule_no_sign_extended_char(ctx):
+    """S7: a plain `char` (signed on this platform) is not widened into an unsigned integer wider than a byte - every byte >= 0x80 becomes a huge
+    number (0xE4 -> 0xFFFFFFFFFFFFFFE4): a table index, a bound check or a key computed from it treats non-ASCII letters differently"""
+    from sa import ir
+    from sa.ir import fmt
+    rule = rid(ctx, 7)
+    ctx.rule(rule, "no-sign-extended-char: no initialisation, assignment or cast widens a plain char into an unsigned integer type wider than 8 bits (static_cast<unsigned char> first is the cure)")
+
+    def signed_byte(x):
+        x = ir.unwrap(x)
+        while isinstance(x, dict) and x.get("k") == "paren" and isinstance(x.get("e"), dict):
+            x = ir.unwrap(x["e"])
+        if not isinstance(x, dict) or x.get("k") == "lit":
+            return False
+        if x.get("k") == "cast":
+            return False  # an explicit cast says what it wants (judged as a cast node of its own)
+        t = (x.get("type") or "").replace("const ", "").replace("&", "").strip()
+        return (x.get("bits") == 8 and not x.get("u") and "bool" not in t and "unsigned" not in t and "uint8" not in t and "int8_t" not in t) or t in ("char", "signed char")
+
+    def wide_unsigned(n):
+        return isinstance(n, dict) and bool(n.get("u")) and isinstance(n.get("bits"), int) and n["bits"] > 8
+
+    fns = scope_functions(ctx)
+    seen = set()
+    nsites = 0
+    for f in fns:
+        if (f.file, f.line) in seen and f.is_pattern:
+            continue
+        seen.add((f.file, f.line))
+        for bid, i, e in f.all_elems():
+            x = e.get("expr")
+            if not isinstance(x, dict):
+                continue
+            for n in walk(x):
+                if not isinstance(n, dict):
+                    continue
+                hit = None
+                if n.get("k") == "decl":
+                    for v in n.get("vars", []):
+                        if wide_unsigned(v) and v.get("init") is not None and signed_byte(v["init"]):
+                            hit = ("`%s %s = %s`" % (v.get("type"), v.get("name"), fmt(v["init"])[:50]), v.get("name"))
+                elif n.get("k") == "bin" and n.get("op") == "=" and wide_unsigned(ir.unwrap(n.get("l"))) and signed_byte(n.get("r")):
+                    hit = ("`%s`" % fmt(n)[:70], fmt(n.get("l"))[:30])
+                elif n.get("k") == "cast" and wide_unsigned(n) and n.get("ck") in ("static", "c", "functional") and signed_byte(n.get("e")):
+                    hit = ("`%s`" % fmt(n)[:70], "cast")
+                if hit:
+                    nsites += 1
+                    ctx.bad(rule, f, "sign-extended-char:%s:%s" % (short(f.qual), hit[1]),
+                            "%s widens a plain char into an unsigned %s-bit value in %s: for a byte >= 0x80 (any non-ASCII letter) char is negative here and the result is a number near 2^64 - "
+                            "comparisons, table indices and keys computed from it single out those letters" % (short(f.qual), n.get("bits") or 64, hit[0]), (f, e.get("ln")))
+    ctx.ok(rule, "-", "no-sign-extended-char:scanned", "%d function(s)" % len(fns), "-")
